@@ -49,3 +49,95 @@ package common
 //@   ensures r == hexHash(h)
 //@ trusted func (h Hash) Hex() (r string)
 //@   ensures r == hexHash(h)
+
+// ---------------------------------------------------------------- C18: BitArray operations never panic
+// for arbitrary arrays satisfying the representation invariant wfBits (len(Elems) == ceil(Bits/64)).
+
+//@ trusted func RandIntn(n int) (r int)
+//@   requires n > 0
+//@   ensures 0 <= r && r < n
+
+//@ func (bA *BitArray) Copy() (r *BitArray)
+//@   for C18
+//@   safe
+//@   requires bA != nil ==> wfBits(bA)
+//@   ensures bA == nil ==> r == nil
+//@   ensures bA != nil ==> fresh(r) && wfBits(r) && r.Bits == bA.Bits && fresh(r.Elems)
+
+//@ func (bA *BitArray) copyBits(bits int) (r *BitArray)
+//@   for C18
+//@   safe
+//@   requires bA != nil && 0 < bits && bits <= 281474976710656
+//@   ensures fresh(r) && wfBits(r) && r.Bits == bits && fresh(r.Elems)
+
+//@ func (bA *BitArray) Or(o *BitArray) (r *BitArray)
+//@   for C18
+//@   safe
+//@   requires bA != nil ==> wfBits(bA) && bA.Bits <= 281474976710656
+//@   requires o != nil ==> wfBits(o) && o.Bits <= 281474976710656
+//@   ensures bA == nil && o == nil ==> r == nil
+//@   ensures bA != nil || o != nil ==> r != nil && wfBits(r)
+//@   loop 1:
+//@     invariant 0 <= i && c != nil && fresh(c) && wfBits(c) && fresh(c.Elems) && c.Bits == max(bA.Bits, o.Bits) && smaller <= len(c.Elems) && smaller <= len(o.Elems)
+
+//@ func (bA *BitArray) And(o *BitArray) (r *BitArray)
+//@   for C18
+//@   safe
+//@   requires bA != nil ==> wfBits(bA) && bA.Bits <= 281474976710656
+//@   requires o != nil ==> wfBits(o) && o.Bits <= 281474976710656
+//@   ensures bA == nil || o == nil ==> r == nil
+//@   ensures bA != nil && o != nil ==> r != nil && wfBits(r)
+
+//@ func (bA *BitArray) and(o *BitArray) (r *BitArray)
+//@   for C18
+//@   safe
+//@   requires bA != nil && wfBits(bA) && bA.Bits <= 281474976710656
+//@   requires o != nil && wfBits(o) && o.Bits <= 281474976710656
+//@   ensures r != nil && fresh(r) && wfBits(r) && r.Bits == min(bA.Bits, o.Bits)
+//@   loop 1:
+//@     invariant 0 <= i && c != nil && fresh(c) && wfBits(c) && fresh(c.Elems) && c.Bits == min(bA.Bits, o.Bits)
+
+//@ func (bA *BitArray) Not() (r *BitArray)
+//@   for C18
+//@   safe
+//@   requires bA != nil ==> wfBits(bA)
+//@   ensures bA == nil ==> r == nil
+//@   ensures bA != nil ==> r != nil && fresh(r) && wfBits(r) && r.Bits == bA.Bits
+//@   loop 1:
+//@     invariant 0 <= i && c != nil && fresh(c) && wfBits(c) && fresh(c.Elems) && c.Bits == bA.Bits
+
+//@ func (bA *BitArray) IsEmpty() (r bool)
+//@   for C18
+//@   safe
+//@   requires bA != nil ==> wfBits(bA)
+
+//@ func (bA *BitArray) IsFull() (r bool)
+//@   for C18
+//@   safe
+//@   requires bA != nil ==> wfBits(bA)
+
+//@ func (bA *BitArray) PickRandom() (idx int, ok bool)
+//@   for C18
+//@   safe
+//@   requires bA != nil ==> wfBits(bA)
+//@   ensures ok ==> 0 <= idx
+//@   loop 1:
+//@     invariant 0 <= i && length == len(bA.Elems) && 0 <= randElemStart && randElemStart < length
+//@   loop 2:
+//@     invariant 0 <= j && 0 <= randBitStart && randBitStart < 64 && 0 <= elemIdx && elemIdx < length - 1
+//@   loop 3:
+//@     invariant 0 <= j && 0 < elemBits && elemBits <= 64 && 0 <= randBitStart && randBitStart < elemBits && 0 <= elemIdx && elemIdx < length
+
+//@ func (bA *BitArray) Update(o *BitArray)
+//@   for C18
+//@   safe
+//@   modifies bA.Elems[_]
+
+// A peer-supplied bit array is only usable if it satisfies the representation invariant; FromProto
+// copies Bits and Elems unchecked.
+//@ func (bA *BitArray) FromProto(protoBitArray *kprotobits.BitArray)
+//@   for C18
+//@   safe
+//@   requires bA != nil && bA.Bits == 0 && len(bA.Elems) == 0
+//@   modifies bA.Bits, bA.Elems
+//@   ensures [establishesWF] protoBitArray != nil && bA.Bits != 0 ==> wfBits(bA)
